@@ -172,6 +172,8 @@ func (e *Env) buildC12(n *Node) templ.Component {
 	switch n.K {
 	case "usescript":
 		return e.counted(useRec{Kind: "usescript", Scripts: []int{si(n.N)}}, corpus.UseScript(sc(n.N)))
+	case "rawscript": // the script value itself as a component (no generated code around it)
+		return e.counted(useRec{Kind: "usescript", Scripts: []int{si(n.N)}}, sc(n.N))
 	case "onclick":
 		return e.counted(useRec{Kind: "onclick", Scripts: []int{si(n.N)}}, corpus.OnClick(sc(n.N)))
 	case "ontwo":
@@ -230,7 +232,7 @@ func genItem(t *kernel.Tape, depth int) Item {
 
 // genUseLeaf draws one use of a script, css class or once handle.
 func genUseLeaf(t *kernel.Tape, ext map[*Node]*nodeExt, nOnce int) *Node {
-	uses := []string{"usescript", "onclick", "ontwo", "oncond", "onhx", "classof", "classtwo", "classcond", "oncemark", "oncewith", "lit", "text"}
+	uses := []string{"rawscript", "usescript", "onclick", "ontwo", "oncond", "onhx", "classof", "classtwo", "classcond", "oncemark", "oncewith", "lit", "text"}
 	k := uses[t.Choose(len(uses), "usekind")]
 	n := &Node{K: k, N: t.Choose(16, "n"), B: t.Bool("b")}
 	x := &nodeExt{M: t.Choose(16, "m")}
